@@ -87,6 +87,10 @@ def _assignment(kind, npar, log, key):
         # the value the library was actually given back (the same function on another memory layout of the same numbers may round
         # differently: the oracle must not recompute it)
         log.setdefault(("assign-out",) + tuple(key[1:]), []).append(np.array(r, dtype=float, copy=True))
+        if kind in (1, 3) and isinstance(x, np.ndarray) and x.flags.writeable and x.size:
+            # a user's assignment may work in place on the array it is handed (x *= ..., x -= x.mean()): that array is the
+            # function's to use, the sample must not change with it
+            x[...] = -777.25
         return r
     return logged, pure
 
